@@ -13,13 +13,14 @@ EXTENDS Naturals, Sequences, TLC, FiniteSets
 \* line that has only the first statement's label / output variable, or is blank): they run and continue, and
 \* lint still looks at their label and output variable ("OUT", "LBL" carry an upper-case letter)
 NoCmdKinds == {"none", "out", "OUT", "lbl", "LBL"}
-Kinds == {"echo", "crash", "exit3", "exit0", "badquote", "unknowncmd", "ECHO"} \cup NoCmdKinds
+\* exit256: a non-zero exit value whose low eight bits are zero - still a failed run
+Kinds == {"echo", "crash", "exit3", "exit256", "exit0", "badquote", "unknowncmd", "ECHO"} \cup NoCmdKinds
 FirstKinds == Kinds \ {"out", "OUT", "lbl", "LBL"}    \* the first statement takes its label / output from s.label / s.out
-Terminates(k) == k \in {"crash", "exit3", "exit0", "unknowncmd", "ECHO"}
+Terminates(k) == k \in {"crash", "exit3", "exit256", "exit0", "unknowncmd", "ECHO"}
 RECURSIVE RunFrom(_,_)
 RunFrom(st, i) == IF i > Len(st) THEN "ok"
                   ELSE CASE st[i] \in {"echo"} \cup NoCmdKinds -> RunFrom(st, i+1) [] st[i] \in {"crash", "unknowncmd", "ECHO"} -> "crash"
-                         [] st[i] = "exit3" -> "exit-nonzero" [] st[i] = "exit0" -> "exit-zero"
+                         [] st[i] \in {"exit3", "exit256"} -> "exit-nonzero" [] st[i] = "exit0" -> "exit-zero"
 Outcome(s) == IF s.missing THEN "missing-file"
               ELSE IF \E i \in 1..Len(s.st) : s.st[i] = "badquote" THEN "parse-error" ELSE RunFrom(s.st, 1)
 \* number of echo lines printed before the run ends
